@@ -48,9 +48,9 @@ def lg_key(e, clause):
     return key
 
 
-def negative_model(ctx, cfg, invariant):
+def negative_model(ctx, cfg, invariant, spec_rel="linear/LBFGSModel.tla"):
     """A configuration of the design model that MUST fail: shows the invariant is not vacuous."""
-    spec = os.path.join(vlib.SPEC, "linear/LBFGSModel.tla")
+    spec = os.path.join(vlib.SPEC, spec_rel)
     rc, text, dt = ctx._tlc(spec, os.path.join(vlib.SPEC, "linear", cfg), 4, 300, tag="neg-" + cfg.replace(".cfg", ""),
                             coverage=False)
     if ("Invariant %s is violated" % invariant) not in text:
@@ -119,6 +119,28 @@ def selftest_binding(ctx, lb_events, lg_events, bad_runs, bad_fits):
     ctx.extra["binding_selftest"] = "corrupted events rejected: Monotone, Reduced, Terminates; Stationary, Argmax, Labels"
 
 
+def gradient_descent_extra(ctx):
+    """GradientDescent::optimize is used by no estimator and by no listed property; its specification is part of the
+    coverage of the optimisation package.  Design model -> TLC; recorded runs -> TLC.  A mismatch is information
+    (EXTRA-SPEC), never a C09 violation, and never changes the exit code."""
+    try:
+        ctx.tlc_mc("linear/GradDescentModel.tla", "linear/GradDescentModel_%s.cfg" % ctx.tier,
+                   must_cover=("Begin", "Step", "Finish"), tag="mc-graddescent")
+        negative_model(ctx, "GradDescentModel_noarmijo.cfg", "ProtoOK", spec_rel="linear/GradDescentModel.tla")
+        fgd = ctx.path("c09-gd.ndjson")
+        ctx.harness("gen-gd", fgd)
+        v, bads = ctx.tlc_trace("linear/GradDescentTrace.tla", "linear/GradDescentTrace.cfg", fgd, timeout=1200,
+                                must_hit=("Start", "Iter"), tag="trace-graddescent")
+        ctx.extra["gradient_descent_extra"] = {"events": v.get("consumed"), "mismatches": len(bads), "hits": v["hits"],
+                                               "note": "supplementary specification, not part of property C09"}
+        for (l, runid, ev, clause) in bads[:10]:
+            vlib.log("EXTRA-SPEC (not a listed property): GradientDescent run %d, event %d (%s): clause %s of GradDescent.tla "
+                     "does not hold" % (runid, l, ev, clause))
+    except vlib.ToolError as err:
+        vlib.log("EXTRA-SPEC stage skipped (tool error: %s)" % err)
+        ctx.extra["gradient_descent_extra"] = {"skipped": str(err)}
+
+
 def run(ctx):
     ctx.build()
     t = ctx.tier
@@ -177,6 +199,8 @@ def run(ctx):
                    "%s back end, %s methods, labels %s)"
                    % (clause, runid, e["n"], e["p"], e["k"], e["alphaNum"], e["layout"], len(e["Q"]),
                       e.get("backend"), e.get("entry"), e.get("labelStr")), [e])
+    # ---- supplementary (no listed property): plain gradient descent, spec/linear/GradDescent*.tla
+    gradient_descent_extra(ctx)
     # ---- the binding is real
     try:
         selftest_binding(ctx, lb, lg, set(b[1] for b in bads), set(b[1] for b in bads2))
